@@ -264,3 +264,20 @@ M('c03-wsgi-response-method-from-async-name', 'C03', 'R3', 'falcon/app_helpers.p
   """            process_response = util.get_bound_method(component, 'process_response')
 """, """            process_response = util.get_bound_method(component, 'process_response_async') or util.get_bound_method(component, 'process_response')
 """)
+
+# ---- wave 8: R10 (= C04 R5, escape half): the handler of last resort raises nothing itself
+M('c03-log-error-message-in-format-template', 'C03', 'R10', 'falcon/request.py',
+  """        log_line = DEFAULT_ERROR_LOG_FORMAT.format(
+            now(), self.method, self.path, query_string_formatted
+        )
+
+        self._wsgierrors.write(log_line + message + '\\n')
+""", """        log_line = (DEFAULT_ERROR_LOG_FORMAT + message).format(
+            now(), self.method, self.path, query_string_formatted
+        )
+
+        self._wsgierrors.write(log_line + '\\n')
+""", also=('C04',))
+M('c03-python-error-handler-formats-message-as-template', 'C03', 'R10', 'falcon/app.py',
+  "        req.log_error(traceback.format_exc())\n",
+  "        req.log_error(('Unhandled exception in ' + req.path + ': {}').format(traceback.format_exc()))\n", also=('C04',))
